@@ -33,22 +33,47 @@ def lean_str(s):
 def main():
     hashes = {}
     caps = []
+    unfollowed = 0
     for fn in ["bytes.rs", "serde.rs"]:
         path = os.path.join(REPO, "passkey-types", "src", "utils", fn)
         raw = open(path, "rb").read()
         hashes[fn] = hashlib.sha256(raw).hexdigest()
         src = strip_tests(strip_comments(raw.decode()))
-        for m in re.finditer(r"with_capacity\s*\(", src):
+        consts = {m.group(1): int(m.group(2).replace("_", "")) for m in re.finditer(r"\bconst\s+([A-Z_][A-Z0-9_]*)\s*:\s*[a-z0-9]+\s*=\s*([0-9][0-9_]*)\s*;", src)}
+        followed = 0     # mentions of size_hint that end up in a reservation this translator has judged
+        for m in re.finditer(r"\b(with_capacity|reserve|reserve_exact)\s*\(", src):
             depth, i = 1, m.end()
             while depth > 0 and i < len(src):
                 depth += src[i] == "("
                 depth -= src[i] == ")"
                 i += 1
             arg = " ".join(src[m.end():i - 1].split())
-            if "size_hint" not in arg:
-                continue
-            c = re.search(r"\.min\(\s*([0-9_]+)\s*\)\s*$", arg)
-            caps.append((fn, arg, int(c.group(1).replace("_", "")) if c else None))
+            # the enclosing function's text before the call: local bindings that carry the declared length
+            fstart = max(src.rfind("fn ", 0, m.start()), 0)
+            before = src[fstart:m.start()]
+            tainted, inits = set(), {}
+            for lm in re.finditer(r"\blet\s+(?:mut\s+)?([a-z_][a-z0-9_]*)\s*(?::[^=;]+)?=\s*([^;]*);", before):
+                inits[lm.group(1)] = lm.group(2)
+            for _ in range(3):
+                for name, init in inits.items():
+                    if "size_hint" in init or any(re.search(r"\b%s\b" % t, init) for t in tainted):
+                        tainted.add(name)
+            fed = "size_hint" in arg or any(re.search(r"\b%s\b" % t, arg) for t in tainted)
+            if not fed:
+                # independent of the declared length: literals, constants, lengths of data already held
+                if re.fullmatch(r"[A-Za-z0-9_ .+*()]*", arg) and not re.search(r"\b(?!len\b)[a-z_][a-z0-9_]*\s*\(", arg):
+                    continue
+            followed += arg.count("size_hint") + sum(inits[t].count("size_hint") for t in tainted if re.search(r"\b%s\b" % t, arg))
+            c = re.search(r"\.min\(\s*([A-Za-z0-9_]+)\s*\)\s*$", arg) or re.search(r"^(?:[a-z:]*::)?min\(.*,\s*([A-Za-z0-9_]+)\s*\)$", arg)
+            cap = None
+            if c:
+                tok = c.group(1)
+                if re.fullmatch(r"[0-9][0-9_]*", tok):
+                    cap = int(tok.replace("_", ""))
+                elif tok in consts:
+                    cap = consts[tok]
+            caps.append((fn, arg, cap))
+        unfollowed += max(src.count("size_hint") - followed, 0)
     path = os.path.join(REPO, "passkey-types", "src", "utils", "serde.rs")
     src = strip_tests(strip_comments(open(path).read()))
     m = re.search(r"((?:\s*#\[[^\]]*\]\s*)*)enum\s+PossiblyUnknown\b", src)
@@ -116,6 +141,8 @@ def main():
     L = ["/- GENERATED by translate/decoders.py from passkey-types/src/utils/{bytes,serde}.rs, passkey-types/src/u2f/*.rs and",
          "   passkey-authenticator/src/lib.rs — do not edit. -/",
          "namespace PasskeyVerif.Generated.Decoders",
+         "/-- mentions of `size_hint` in those files that do not end up in one of the reservations below -/",
+         "def unfollowedSizeHints : Nat := %d" % unfollowed,
          "/-- capacity reserved from a declared sequence length: (file, argument, cap) -/",
          "def reservations : List (String × String × Option Nat) := [%s]" % ", ".join(
              "(%s, %s, %s)" % (lean_str(f), lean_str(a), ("some %d" % c) if c is not None else "none") for f, a, c in caps),
@@ -130,7 +157,7 @@ def main():
     if changed:
         os.makedirs(OUT, exist_ok=True)
         open(out, "w").write(content)
-    return {"sources": hashes, "reservations": caps, "possiblyUnknownBuffered": derived and untagged and not manual, "panicSites": panicky, "regenerated": changed}
+    return {"sources": hashes, "reservations": caps, "unfollowedSizeHints": unfollowed, "possiblyUnknownBuffered": derived and untagged and not manual, "panicSites": panicky, "regenerated": changed}
 
 
 if __name__ == "__main__":
